@@ -4,6 +4,18 @@ from props.e2egen import *
 def gen(ctx):
     rng = ctx["rng"]; tier = ctx["tier"]
     noop = "noop@" + R(b"200 ok")
+    # contexts created WITHOUT resumption that carry an application verify callback: first in the list, so that every harness
+    # process (lines are dealt round-robin to at most 16 processes) meets one before any resumption-enabled context has been
+    # created in it - whether a data connection offers a session must not depend on what else lives in the SSL_CTX or on the
+    # order in which contexts are created
+    for k in range(16):
+        ver = (13, 12)[k % 2]; mode = "pa"[(k // 2) % 2]; rfc = (k // 4) % 2
+        c = cfg_str(mode=mode, rfc=rfc, resume=0, ver=ver, verify=("peer", "none")[(k // 8) % 2], prop="C18", vcb=1)
+        yield line(c, [connect(), get(mode, rfc), put(mode, rfc), lst(mode, rfc), "disc:1@" + R(b"221 bye")])
+    for k in range(8):
+        ver = (13, 12)[k % 2]; mode = "pa"[(k // 2) % 2]; rfc = (k // 4) % 2
+        c = cfg_str(mode=mode, rfc=rfc, resume=1, ver=ver, prop="C18", vcb=1, reqreuse=k % 2)
+        yield line(c, [connect(), get(mode, rfc), put(mode, rfc), "disc:1@" + R(b"221 bye")])
     for ver in (13, 12):
         for resume in (1, 0):
             for mode in "pa":
@@ -35,7 +47,7 @@ def gen(ctx):
                         yield line(c, [connect(), "put:STOR:%s:g3.5000@%s/%s" % (H(b"SECRETPATH04.bin"), setup(mode, rfc), ",".join([R(b"150 go"), R(b"226 done"), "Drecv:-:cb"])), "disc:0", connect(), lst(mode, rfc)])
         # verification settings are those of the control connection: an untrusted certificate fails on both or on neither
         yield line(cfg_str(ver=ver, verify="none", prop="C18"), [connect(bad_cert=True), get("p", 1), put("p", 1)])
-    ctx["scopes"].append("TLS 1.2/1.3 x resumption on/off x four methods x server requires reuse on/off, 2-6 (thorough 5-20) consecutive transfers, then reconnect and transfer again; sessions ended by QUIT / non-graceful disconnect / 421 with and without disconnect / server drop / connect while connected, each followed by transfers on the new session; data peer answering with a certificate of another CA x verify peer / none x resumption on / off x four methods")
+    ctx["scopes"].append("TLS 1.2/1.3 x resumption on/off x four methods x server requires reuse on/off, 2-6 (thorough 5-20) consecutive transfers, then reconnect and transfer again; sessions ended by QUIT / non-graceful disconnect / 421 with and without disconnect / server drop / connect while connected, each followed by transfers on the new session; contexts with an application verify callback (no resumption first in every harness process, then with resumption); data peer answering with a certificate of another CA x verify peer / none x resumption on / off x four methods")
 
 PROP = {
     "id": "C18",
